@@ -466,6 +466,21 @@ class Gen:
             elif op == "pairs":
                 return ["l", [["t", [k, v]] for k, v in kvs]]
             return ["d", kvs]
+        if tag == "o":
+            # an INSTANCE of a program class whose field holds something else (constructors of dataclasses / named tuples / plain
+            # classes do not validate): still an instance of the right class, so every isinstance / exact-class shortcut sees it
+            kvs = [list(kv) for kv in wire[2]]
+            if kvs:
+                i = ri(r, 0, len(kvs) - 1)
+                kvs[i][1] = self.junk_flat() if r.random() < 0.6 else self.corrupt(kvs[i][1])
+            return ["o", wire[1], kvs]
+        if tag == "t":
+            xs = list(wire[1])
+            if xs and r.random() < 0.7:
+                i = ri(r, 0, len(xs) - 1)
+                xs[i] = self.junk_flat() if r.random() < 0.5 else self.corrupt(xs[i])
+                return ["t", xs]
+            return ["t", xs + [self.junk_flat()]]
         return r.choice([None, ["l", [wire]], 0, "x"])
 
 
